@@ -268,7 +268,14 @@ class TempfileProxy:
 
 
 def chunked_copyfile(fs):
-    def copyfile(src, dst, **kw):
+    def copyfile(src, dst, *, follow_symlinks=True):
+        # same contract as shutil.copyfile, data path through SimFS
+        if not follow_symlinks and _os.path.islink(src):
+            fs._mut("symlink", dst, _os.readlink(src))
+            _os.symlink(_os.readlink(src), dst)
+            return dst
+        if _os.path.exists(dst) and _os.path.samefile(src, dst):
+            raise _shutil.SameFileError("{!r} and {!r} are the same file".format(src, dst))
         with builtins.open(src, "rb") as s:
             data = s.read()
         f = fs.open(dst, "w", encoding="latin-1")
